@@ -9,6 +9,7 @@ import (
 	"strings"
 
 	"github.com/golang/protobuf/proto"
+	"github.com/openacid/errors"
 
 	"github.com/openacid/slim/encode"
 	"github.com/openacid/slim/index"
@@ -185,7 +186,13 @@ func (p *lprofile) extraDirected() []KeySet {
 		// step-only modes and the prefix-storing modes use different code
 		return []KeySet{
 			{"directed:run-34000-halfbytes", sortUniq([]string{"a" + rep("x", 17000) + "1", "a" + rep("x", 17000) + "2", "b"})},
-			{"directed:run-60000-halfbytes", sortUniq([]string{rep("\xfe", 30000) + "\x10", rep("\xfe", 30000) + "\x20z", rep("\xfe", 30000) + "\x30"})}}
+			{"directed:run-60000-halfbytes", sortUniq([]string{rep("\xfe", 30000) + "\x10", rep("\xfe", 30000) + "\x20z", rep("\xfe", 30000) + "\x30"})},
+			// ... and runs that no step can count (65536 half-bytes and more): the
+			// modes without inner prefixes refuse them (ErrKeyTooLong, tolerated for
+			// these lists); whatever is accepted takes part in the relation. The
+			// run leads into a byte-wide node (16 branches) and into a 4-bit node.
+			{"directed:overlong-run-80000-halfbytes-16-branches", overlongFan(40000, 16)},
+			{"directed:overlong-run-65536-halfbytes-3-branches", overlongFan(32768, 3)}}
 	}
 	if p.prop == "C03" {
 		// C03 is about every Complete trie: stored prefixes have no length limit,
@@ -199,6 +206,16 @@ func (p *lprofile) extraDirected() []KeySet {
 		}
 	}
 	return nil
+}
+
+func overlongFan(runBytes, branches int) []string {
+	var k []string
+	p := rep("a", runBytes)
+	for i := 0; i < branches; i++ {
+		k = append(k, p+string([]byte{byte(0x10 + i*13)}))
+	}
+	k = append(k, p+string([]byte{0x10})+"tail", "b")
+	return sortUniq(k)
 }
 
 // caseAt materialises case idx. Returns nil,chunk for exhaustive chunks.
@@ -1082,6 +1099,10 @@ func runLookupCase(ctx *Ctx, prop string, lc *LCase, caseIdx int) {
 			continue
 		}
 		if err != nil {
+			if strings.HasPrefix(lc.Family, "directed:overlong-run") && errors.Cause(err) == trie.ErrKeyTooLong && !o.Inner() {
+				ctx.Count("overlong_lists_refused_without_inner_prefixes", 1)
+				continue
+			}
 			env.viol("build-error", "", map[string]interface{}{"error": err.Error(), "opt_spelling": spell})
 			continue
 		}
